@@ -834,7 +834,11 @@ ROMAN_FIVES = ["v", "l", "d"]
 
 def format_int_roman(value: int) -> str:
     """Format a number as lowercase Roman numerals."""
-    assert 0 < value < 4000
+    if value <= 0:
+        # there is no Roman numeral for zero or a negative number
+        return ""
+    # thousands beyond 3999 are written with further "m"s
+    (thousands, value) = divmod(value, 1000)
     result: List[str] = []
     index = 0
 
@@ -854,12 +858,14 @@ def format_int_roman(value: int) -> str:
             result.insert(1 if over_five else 0, ROMAN_ONES[index] * remainder)
         index += 1
 
-    return "".join(result)
+    return "m" * thousands + "".join(result)
 
 
 def format_int_alpha(value: int) -> str:
     """Format a number as lowercase letters a-z, aa-zz, etc."""
-    assert value > 0
+    if value <= 0:
+        # letters start at 1 = "a"
+        return ""
     result: List[str] = []
 
     while value != 0:
